@@ -60,6 +60,9 @@ CLAIMED.update({
  "C05": C("stateful (model-based) property-based testing: generated insertion histories (Csr rows grown through the 32-entry binary-search cutoff, adj::List with saved edge indices), row-map / Vec<Vec<_>> reference models; differential check of from_sorted_edges against edge-by-edge construction",
           "Insertion histories over Csr (both edge types, four index widths) and adj::List (four widths) compared with reference models after every step, plus from_sorted_edges on sorted and perturbed edge lists.",
           "the reference models in props/c05.rs", "DESIGN.md section 5, C05"),
+ "C14": C("stateful (model-based) property-based testing: generated operation histories on both inner graph types; reference digraph + Warshall reachability as oracle for acceptance, plus order-bookkeeping invariants after every step",
+          "Operation histories over Acyclic<DiGraph> and Acyclic<StableDiGraph>: every insertion accepted iff it keeps the graph acyclic (right error kind, is_valid_edge for all pairs), rejected calls change nothing, removals of present and absent nodes keep the order consistent; try_from_graph/TryFrom accept exactly acyclic graphs.",
+          "the slot model of gmodel.rs and the Warshall closure in agraph.rs", "DESIGN.md section 5, C14"),
 })
 PLANNED = {}
 
